@@ -498,6 +498,8 @@ func runScenario(c *mc.Ctx, prop string, sc scenario) {
 	c.Count("schedules", execs)
 	c.Count("decision_points", points)
 	c.Count("distinct_outcome_vectors", int64(len(outcomes)))
+	c.Count("schedules:"+sc.family, execs)
+	c.Count("decision_points:"+sc.family, points)
 	if os.Getenv("VERIF_E3_MODE") != "" {
 		var ks []string
 		for k := range outcomes {
